@@ -34,7 +34,9 @@ ASSUMPTIONS = [
     "(near) zero under the same absolute bound; the sine coefficient of order 0 must be 0.",
     "fourierval reference = the definition sum c_n cos(2 pi n x/L) + s_n sin(2 pi n x/L) with L = b-a (exact dyadic coefficients and "
     "point; cos(pi r)/sin(pi r) after exact reduction of the rational r to [-1/2,1/2] by periodicity, exact values at multiples of 1/2); "
-    "tolerance 2^(10-p)*max(|ref|, 1).",
+    "'exactly as their definition' is read up to rounding: |y - ref| <= 2^(10-p)*max(|ref|, sum|c_n|+sum|s_n|, 1) (the terms are computed in p-bit "
+    "arithmetic with arguments 2 pi n x/L up to ~90 rad, so the achievable error is relative to the size of the terms, not of the possibly "
+    "cancelling sum); coefficients |c| <= 64, |x| <= 2, L >= 1.",
     "The functions handed to mpmath are Python lambdas evaluating the same expressions at the working precision in force.",
     "Universal accuracy is NOT proved: sampled instances only (level exploration, certified oracle).",
 ]
@@ -108,10 +110,10 @@ def g_fourier(rng):
 def g_fourierval(rng, prec):
     n1, n2 = rng.randint(1, 7), rng.randint(0, 7)
     def co():
-        return Fraction(rng.randint(-2 ** 12, 2 ** 12), 2 ** rng.randint(0, 10)) if rng.random() < 0.8 else Fraction(0)
+        return Fraction(rng.randint(-2 ** 12, 2 ** 12), 2 ** rng.randint(6, 12)) if rng.random() < 0.8 else Fraction(0)
     cs = [co() for _ in range(n1)]; ss = [co() for _ in range(n2)]
-    a = Fraction(rng.randint(-8, 8), 4); L = Fraction(rng.choice([1, 2, 3, 4, 6]), rng.choice([1, 2]))
-    x = Fraction(rng.randint(-64, 64), 16)
+    a = Fraction(rng.randint(-8, 8), 4); L = Fraction(rng.choice([1, 2, 3, 4, 6]), 1) if rng.random() < 0.7 else Fraction(rng.choice([3, 5]), 2)
+    x = Fraction(rng.randint(-32, 32), 16)
     return {"kind": "fourierval", "cs": fsl(cs), "ss": fsl(ss), "a": fs(a), "b": fs(a + L), "x": fs(x)}
 
 
@@ -252,7 +254,8 @@ def build_instances(cid, spec, prec, R, regime):
             if c: ref = ref + Const(c) * c12.cospi_real(2 * n * x / (b - a))
         for n, c in enumerate(ss):
             if c: ref = ref + Const(c) * c12.sinpi_real(2 * n * x / (b - a))
-        out.append(tol_instance(cid + "_val", y, ref, eps, meta=meta("value", "fourierval")))
+        S = sum(abs(c) for c in cs) + sum(abs(c) for c in ss)
+        out.append(tol_instance(cid + "_val", y, ref, eps, meta=meta("value", "fourierval"), abs_floor=Const(max(S, Fraction(1)))))
         return out, direct
     raise KeyError(k)
 
